@@ -8,7 +8,7 @@
    about.  [linecol text off] is the true 1-based (line, column in runes) of that index. *)
 From Coq Require Import List NArith ZArith Bool Lia.
 Import ListNotations.
-From GY Require Import Model.Lex Model.Parse Spec.C16 Proofs.LexProofs Proofs.ParseProofs.
+From GY Require Import Model.Lex Model.Parse Model.Utf8 Spec.C16 Proofs.LexProofs Proofs.ParseProofs Proofs.Utf8Proofs.
 Local Open Scope Z_scope.
 
 (* T1: every statement of an accepted text, at every depth, reports (line, column) = the true position
@@ -43,6 +43,25 @@ Proof. exact linecol_terminated. Qed.
 Theorem C16_model_fuel_sufficient : forall input ss es o,
   ~ In EOFR input -> Parse input = (ss, es, o) -> o = false.
 Proof. exact Parse_fuel_sufficient. Qed.
+
+(* the same from the BYTES of the file ([decode]: Model/Utf8.v, the decoding lexer.next performs; it never yields
+   the sentinel -- C02_decode_no_eof): the model never runs out of fuel on any byte string, and every statement
+   reports the position of its keyword counted in CHARACTERS of the decoded text -- one per well-formed
+   multi-byte sequence, one per ill-formed byte *)
+Theorem C16_model_fuel_sufficient_bytes : forall bytes ss es o, Parse_bytes bytes = (ss, es, o) -> o = false.
+Proof. exact (fun bytes ss es o => Parse_fuel_sufficient (decode bytes) ss es o (decode_no_eof bytes)). Qed.
+
+Theorem C16_statement_positions_bytes : forall bytes ss o,
+  Parse_bytes bytes = (ss, [], o) -> Forall (stmt_ok (terminated (decode bytes))) ss.
+Proof. exact (fun bytes => Parse_statement_positions (decode bytes)). Qed.
+
+Theorem C16_error_positions_bytes : forall bytes ss es o,
+  Parse_bytes bytes = (ss, es, o) -> Forall (err_ok (terminated (decode bytes))) es.
+Proof. exact (fun bytes => Parse_error_positions (decode bytes)). Qed.
+
+(* a character is never wider than its bytes: a column (in characters) never exceeds the byte offset in the line + 1 *)
+Theorem C16_characters_le_bytes : forall s, (length (decode s) <= length s)%nat.
+Proof. exact decode_length. Qed.
 
 (* non-vacuity: an accepted text with a comment, tabs, a multi-byte rune and a line break before the
    statements (slash star x star slash TAB a TAB brace LF space e-acute space quote q quote semicolon
